@@ -560,6 +560,9 @@ class RealBackend(object):
         class Holder(object):
             pass
 
+        if self.spec.get("falsy_holder"):
+            # the instance methods are looked up on is falsy (an empty container)
+            Holder.__len__ = lambda self: 0
         self.holder_cls = Holder
         for idx, t in enumerate(self.spec["templates"]):
             kind = t.get("kind", "fn")
@@ -597,6 +600,8 @@ class RealBackend(object):
                 synccallers.append(lambda inst, fn=fn: fn(inst).value())
             elif kind == "method":
                 def m(self, inst, gen_body=gen_body):
+                    if type(self) is not Holder:
+                        B.viol("C09", "bound-instance", "method template %d ran with self=%r" % (inst.tmpl, self))
                     return (yield from gen_body(inst))
                 m.__name__ = name
                 setattr(Holder, name, asynq_()(m))
@@ -1431,7 +1436,17 @@ class RealBackend(object):
                     self.root_waiting = root
                     val = self.synccallers[root.tmpl](root)
                 elif conv == "value":
-                    task = self.callers[root.tmpl](root)
+                    if spec.get("handover"):
+                        # the task object is built on another thread (a dispatcher) and handed
+                        # over, un-evaluated, to this one
+                        box = []
+                        th = _threading.Thread(target=lambda: box.append(self.callers[root.tmpl](root)), name="dispatcher")
+                        th.start()
+                        th.join()
+                        task = box[0]
+                        self.probes["task_built_on_another_thread"] += 1
+                    else:
+                        task = self.callers[root.tmpl](root)
                     self._register(root, task, None)
                     self.root_waiting = root
                     val = task.value()
